@@ -84,6 +84,8 @@ type Thread struct {
 	// Blocked describes what the thread waits for (nil when runnable)
 	Blocked *BlockInfo
 	ID      int
+	// Quiescing: the thread waits in zzvrf.Quiesce for the others to block or finish
+	Quiescing bool
 }
 
 type BlockInfo struct {
@@ -489,6 +491,9 @@ func (x *Exec) posKey(s *State) []int {
 		}
 		if t.Blocked != nil {
 			st = 2
+		}
+		if t.Quiescing {
+			st += 4
 		}
 		for _, f := range t.Frames {
 			k = append(k, -3, f.Info.ID)
